@@ -5,7 +5,7 @@ import urlfam as UF
 
 PROPERTY = "C02"
 LEVEL = "model_checking"
-BUDGET = {"quick": 240, "thorough": 2400}
+BUDGET = {"quick": 300, "thorough": 2400}
 BOUNDS = {"quick": "kernel: all texts of <= 3 code points (no lone surrogates) x 9 quoters x 2 backends",
           "thorough": "kernel: all texts of <= 3 code points x 9 quoters x 2 backends, 4 code points for the 4 requoters; URL level: <= 3 free code points"}
 ASSUMPTIONS = ["lone surrogates are excluded (the property excepts them)",
